@@ -47,7 +47,7 @@ if "C08" in REGISTRY:
     _e["module"] = ([_e["module"]] if isinstance(_e["module"], str) else list(_e["module"])) + ["Props.C08Wire"]
     _e["level_text"] = _e["level_text"] + (" Joint theorems with the wire model (Props/C08Wire.lean): the position at which the encoder writes each field of a (sealed or "
                                             "delimited) structure, and the selected variant of a union, belongs to the offset set handed out for it, for every valid value and origin.")
-    _e["partial"] = list(_e.get("partial", [])) + ["exactness in the reverse direction (every element of an offset set is realised by some value) is not proved; it is observed through the wire and layout correspondences"]
+    _e["partial"] = list(_e.get("partial", [])) + ["exactness in the reverse direction (every element of an offset set is the real position of the field for some origin and some valid value) is proved for structures without delimited members (C08.struct_field_offsets_realised, C08.delimited_field_offsets_realised); with delimited members it is observed through the wire and layout correspondences"]
     REGISTRY["C08"] = _e
 
 # bit-level reader / writer refinement (both code paths of _BitWriter / _BitReader), shared by C06 and C07
